@@ -34,7 +34,7 @@ git -C /repo apply "$PATCH" || exit 3
 git -C /repo checkout -- . && git -C /repo clean -fdq
   HOW="git -C /repo apply, /verif/bin/check run $PROP --tier quick, git -C /repo checkout -- . && git -C /repo clean -fdq"
 fi
-grep -E "^violation class|^further violation|^check .* tier|HARNESS" /tmp/seedverify.$$.check | cut -c1-220
+grep -a -E "^violation class|^further violation|^check .* tier|HARNESS" /tmp/seedverify.$$.check | cut -c1-220
 echo "seedverify: $PROP $NAME -> check exit $check_rc (demo clean=$clean_rc patched=$patched_rc)"
 D=/verif/seeded/$PROP/$NAME; mkdir -p $D; cp "$PATCH" $D/patch.diff; cp "$DEMO" $D/$(basename "$DEST")
 python3 - "$D" "$PROP" "$NAME" "$DEST" "$CMD" "$clean_rc" "$patched_rc" "$check_rc" "$suite" /tmp/seedverify.$$.check "$(dirname "$PATCH")" "$(basename "$PATCH")" "$HOW" <<'PY'
